@@ -36,7 +36,7 @@ func init() {
 			b = 3
 		}
 		// thorough: pool operations are scheduling points and "the pool dropped the buffer" is a choice
-		pool := vsched.Config{PoolPoints: tier == "thorough"}
+		pool := vsched.Config{PoolPoints: tier == "thorough", AtomicPoints: true}
 		out := []*vexplore.Scenario{
 			{Name: "recv-retain-per-kind", Mode: "enum", Reset: kit.ResetGlobals, Body: recvRetain, NeedCounters: []string{"retained-checked", "buffer-reused"}},
 			{Name: "send-outcomes-per-kind", Mode: "enum", Reset: kit.ResetGlobals, Body: sendOutcomes,
